@@ -6,7 +6,7 @@ import itertools, json, os, random, shutil, threading, time
 import concurrent.futures as cf
 from . import base, tlc
 
-CMDS = ["start", "stop", "pause", "resume"]
+CMDS = ["start", "stop", "pause", "resume", "reset"]
 CAP = 3
 CONFIGS = {"plain": {"NPhases": 0, "MaxCycles": 0, "EnterCallsPause": False}, "plain-max2": {"NPhases": 0, "MaxCycles": 2, "EnterCallsPause": False},
            "two-phases": {"NPhases": 2, "MaxCycles": 0, "EnterCallsPause": False}, "two-phases-max1": {"NPhases": 2, "MaxCycles": 1, "EnterCallsPause": False},
@@ -64,7 +64,7 @@ def sessions(tier, seed):
         for _ in range(12 if tier == "quick" else 150):
             seqs.append([rng.choice(CMDS) for _ in range(rng.randint(4, 7))])
         for s in seqs:
-            if s.count("start") > 4:
+            if s.count("start") + s.count("reset") > 4:
                 continue
             out.append((cname, s, [rng.choice([0.0, 0.0, 0.02, 0.12, 0.3]) for _ in s]))
     return out
@@ -150,7 +150,7 @@ def run(tier):
                                               "snapshots_on_the_code_reporting_RUNNING_with_no_worker": ghost,
                                               "resume_calls_on_the_code_that_left_a_live_worker_blocked_while_reporting_RUNNING": stuck,
                                               "sessions_that_leaked_a_worker_thread_after_cleanup": sum(1 for x in recs if x["leaked"])}
-    R.cov["rule"] = ("every call sequence over start/stop/pause/resume up to length 3 + seeded ones of length 4..7, with seeded pauses between calls, on 5 configurations "
+    R.cov["rule"] = ("every call sequence over start/stop/pause/resume/reset up to length 3 + seeded ones of length 4..7, with seeded pauses between calls, on 5 configurations "
                      "(plain ticks, max_cycles, two phases, on_enter calling pause); real threads; a snapshot (status, both events, live workers, cycle count) after each call; "
                      "Trace_Oscillator composes the unlogged worker statements between calls")
     R.assumptions += ["snapshots are taken when status and live-worker count read the same twice around the other fields and once more 4 ms later",
